@@ -100,6 +100,7 @@ fn main() {
 			props::conc::run(&cfg, &plan)
 		}
 		"dupfam" => props::dupfam::run(&cfg),
+		"faultfam" => props::faultfam::run(&cfg),
 		"keyfam" => props::keyfam::run(&cfg),
 		"nonacqfam" => props::nonacqfam::run(&cfg),
 		"panicfam" => props::panicfam::run(&cfg),
